@@ -308,6 +308,35 @@ pub fn shape_programs() -> Vec<String> {
     out.into_iter().collect()
 }
 
+/// Every ASCII character (0x00..=0x7F) and a few non-ASCII ones in every lexical position where
+/// the language draws a character class: inside comments, inside and at the start of labels, right
+/// after a mnemonic, between operands, inside numbers.
+pub fn char_class_programs() -> Vec<String> {
+    let mut out = vec![];
+    let mut chars: Vec<char> = (0u8..=0x7F).map(|b| b as char).collect();
+    chars.extend(['\u{80}', 'é', 'ß', 'Ω', '語', '\u{2028}', '\u{feff}', '😀']);
+    for c in chars {
+        out.push(format!("{} NOP ;x{}y", HDR, c));
+        out.push(format!("{};{}", HDR, c));
+        out.push(format!("{}L1: ; {} ;", HDR, c));
+        out.push(format!("#! mrasm ;{}\n NOP", c));
+        out.push(format!("{}a{}b:\n JR a{}b", HDR, c, c));
+        out.push(format!("{}{}ab:\n", HDR, c));
+        out.push(format!("{} NOP{}", HDR, c));
+        out.push(format!("{} INC{}R0", HDR, c));
+        out.push(format!("{} ADD R0,{}R1", HDR, c));
+        out.push(format!("{} ADD R0{},R1", HDR, c));
+        out.push(format!("{} LD R0, 1{}", HDR, c));
+        out.push(format!("{} LD R0, 0x{}", HDR, c));
+        out.push(format!("{} LD R0, 0b{}", HDR, c));
+        out.push(format!("{} LD R0, (R1{})", HDR, c));
+        out.push(format!("{} .DB 1{}2", HDR, c));
+        out.push(format!("{}{} NOP", HDR, c));
+        out.push(format!("{} R{}:", HDR, c));
+    }
+    out
+}
+
 /// (d) label rules: number of definitions around the limit, undefined references in every
 /// referencing form, case folding, reserved prefixes.
 pub fn label_programs() -> Vec<String> {
